@@ -25,6 +25,7 @@
 //	child <enc>                         inner ops (`;` separated, `,` for blanks) in a sacrificial process
 //	mxreset | mxlisten <l> <dom> | mxconn <c> <dom> | mxaccept <l> | mxclose <l>             vhost HTTPS muxer
 //	vl… | vp… | gp…                     visitor-listener and group-listener accept paths: eng_pool_vl.go
+//	sq…                                 the control-message send path with a client that stops reading: eng_pool_send.go
 //
 // flags: n/N StartWorkConn.ProxyName right/wrong, s/S source address, t/T destination address, d/D payload echo.
 package main
@@ -116,12 +117,14 @@ type poolState struct {
 	gates      map[string]string // hostname (= sid) -> point
 	lockHeld   bool
 	mx         *poolMx
+	gs         map[string]*poolGSess // sessions on a gate connection: eng_pool_send.go
 }
 
 var poolSt = &poolState{}
 
 func (st *poolState) stop() {
 	verifhook.Set(nil)
+	st.stopGates()
 	for _, s := range st.sess {
 		if s.parked != nil {
 			select {
@@ -524,6 +527,9 @@ func poolExec(tok []string) string {
 		return poolChild(tok[1])
 	case "mxreset", "mxlisten", "mxconn", "mxaccept", "mxclose":
 		return poolMxExec(st, tok)
+	}
+	if strings.HasPrefix(tok[0], "sq") {
+		return poolGExec(st, tok)
 	}
 	if strings.HasPrefix(tok[0], "vl") || strings.HasPrefix(tok[0], "vp") || strings.HasPrefix(tok[0], "gp") {
 		return poolVlExec(tok)
@@ -1170,6 +1176,8 @@ type poolGen struct {
 	sess    []*poolGenSess
 	nvc     int // visitor / group user connections
 	nvp     int
+	ngs     int // sessions on a gate connection
+	cycle   int
 	ngm     int
 	floods  int
 	dead    map[string]bool // killed work connections (half dead or dead)
@@ -1746,6 +1754,13 @@ func poolGenRun(rng *rand.Rand, n int, emit func(string)) {
 			if g.n < n && rng.Intn(2) == 0 {
 				ep(n)
 			}
+		}
+		// the send path (eng_pool_send.go), in two cycles out of three.  Its choices come from a stream of
+		// its own, seeded by what the run has produced so far: the episodes above are the ones the same
+		// VERIF_SEED produced before this part existed.
+		g.cycle++
+		if g.n < n && g.cycle%3 != 0 {
+			g.sendEpisode(rand.New(rand.NewSource(int64(g.cycle)*1000003 + int64(g.n)*7919 + int64(g.nw)*31 + int64(g.nu))))
 		}
 	}
 }
